@@ -234,7 +234,7 @@ def units(tier, seed):
     depth = 2 if tier == "quick" else 3
     out = [{"stage": "hist", "first": i, "depth": depth} for i in range(len(alpha))]
     out.append({"stage": "hist", "first": None, "depth": 0})
-    out.append({"stage": "bfs", "depth": 3 if tier == "quick" else 4})
+    out.append({"stage": "bfs", "depth": 3 if tier == "quick" else 8})
     out.append({"stage": "processes"})
     return out
 
@@ -316,9 +316,9 @@ def describe(tier, seed):
                 "construction, set_state); every history of length <= %d (no deduplication) and BFS with state deduplication to depth %d; in every state all 20 seeded "
                 "APIs x seeds {0, 1, 42, 12345, VERIF_SEED} must be bit-identical to the initial-state reference and 5 unseeded samplers called twice must differ; the "
                 "reference table is recomputed in two fresh interpreters with other PYTHONHASHSEED values. non-trivial: non-empty history" % (
-                    len(alpha), 2 if tier == "quick" else 3, 3 if tier == "quick" else 4),
+                    len(alpha), 2 if tier == "quick" else 3, 3 if tier == "quick" else 8),
         "exhaustive": True,
-        "bounds": {"history_depth_no_dedup": 2 if tier == "quick" else 3, "bfs_depth": 3 if tier == "quick" else 4, "alphabet": len(alpha)},
+        "bounds": {"history_depth_no_dedup": 2 if tier == "quick" else 3, "bfs_depth": 3 if tier == "quick" else 8, "alphabet": len(alpha)},
         "assumptions": ["argument values are fixed per API (one representative configuration each); the quantifier over histories is what is explored exhaustively",
                         "an unseeded 12-row sample coinciding with the next one has probability < 1e-8"],
     }
